@@ -32,6 +32,8 @@ def run(ctx):
     forward_consumer(ctx, fb)
     zp_index(ctx, fb)
     accumulate_only(ctx, fb, 'C17.accumulate', lambda f: is_int8_fn(f))
+    quant_params_used(ctx, fb)
+    im2col_padding(ctx, fb)
 
 
 def is_int8_fn(f):
@@ -475,3 +477,56 @@ def accumulate_only(ctx, fb, R, pred, label='int8 kernel functions with an accum
 def all_loop_counter(f, l):
     ty = f.local_ty(l)
     return ty in ('usize', 'core::ops::Range<usize>') and False
+
+
+
+def quant_params_used(ctx, fb):
+    """zero points may be given with the GEMM call (GemmOptions.a_quant / b_quant) or when a panel is packed; prepacked
+    inputs are packed without them, so a kernel that ignores its a_quant / b_quant parameters computes with zero points of
+    zero: every Kernel<u8,i8,i32>::kernel impl must read both parameters (sibling agreement with the generic kernel)"""
+    R = 'C17.quant-params'
+    n = 0
+    for imp in fb.impls(trait=K_TRAIT):
+        kp = imp['items'].get('kernel', (None, None))[1]
+        if not kp or 'Kernel<u8, i8, i32>' not in kp:
+            continue
+        f = fb.fn(kp)
+        if f is None or not f.has_mir():
+            continue
+        n += 1
+        name = re.sub(r'^<|rten_gemm::kernels::| as Kernel<u8, i8, i32>>::kernel$', '', kp)
+        names = f.names or {}
+        idx = {v: int(k) for k, v in names.items() if int(k) <= f.argc}
+        uses = uses_of(f)
+        for pn in ('a_quant', 'b_quant'):
+            cands = [l for nm, l in idx.items() if nm.lstrip('_') == pn]
+            used = bool(cands) and bool(uses.get(cands[0]))
+            ctx.inst(R, '%s:%s' % (name, pn), used, 'the kernel reads the zero points supplied with the call' if used else
+                     'the kernel never reads its %s parameter: zero points passed with the GEMM call are ignored, so prepacked inputs (packed without zero points) are multiplied as if their zero point were 0' % pn, f.loc())
+    ctx.floor(R, 'impls of Kernel<u8,i8,i32>::kernel', n, 3)
+
+
+def im2col_padding(ctx, fb):
+    """int8 im2col packing: an element outside the image must be written as the input zero point (so that it contributes
+    nothing), and every stored element is also added to the column sum"""
+    R = 'C17.im2col-padding'
+    fs = [f for f in fb.fns(crate='rten_gemm') if f.has_mir() and re.search(r"im2col::Im2Col::<'_, i8>::pack_block_int8$|Im2Col::<.*i8>::pack_block_int8$", f.path)]
+    if not fs:
+        ctx.inst(R, 'anchor:pack_block_int8', False, 'Im2Col::<i8>::pack_block_int8 not found', '')
+        return
+    f = fs[0]
+    names = f.names or {}
+    zp = [int(k) for k, v in names.items() if v == 'zero_point' and int(k) <= f.argc]
+    writes = [c for c in f.calls() if re.search(r'MaybeUninit::<T>::write$', c.callee or '') and f.in_loop(c.bb)]
+    ok = bool(zp) and bool(writes)
+    n_dep = 0
+    for c in writes:
+        og = f.origins(c.args[1])
+        if any(o[0] == 'param' and o[1] == zp[0] - 1 for o in og):
+            n_dep += 1
+    # metadata writes (bytes of the panel meta) are in a different loop and do not carry image data: require that every
+    # write whose value derives from the image data also has the zero point among its origins
+    img_writes = [c for c in writes if any(o[0] == 'call' and re.search(r'get_unchecked$', o[1] or '') for o in f.origins(c.args[1]))]
+    ok = ok and bool(img_writes) and all(any(o[0] == 'param' and o[1] == zp[0] - 1 for o in f.origins(c.args[1])) for c in img_writes)
+    ctx.inst(R, 'padding-is-zero-point', ok, 'every packed image element is either image data or the zero_point parameter (%d store sites)' % len(img_writes) if ok else
+             'an element stored by the int8 im2col packer can be a constant instead of the input zero point for positions outside the image: padded positions then contribute -zero_point * weight to every border output', f.loc())
